@@ -235,6 +235,13 @@ def _kw(case):
     r = np.array(case["rdims"], dtype=int)
     c = np.array(case["cdims"], dtype=int)
     if form == "both":
+        import zlib
+
+        h_ = zlib.crc32(repr((case["shape"], case["rdims"], case["cdims"], case.get("pattern"))).encode())
+        if h_ % 2 == 0:
+            # the cyclic-order option beside an explicit column list: the explicit list decides (the option only orders the columns when
+            # no column modes are given)
+            return {"rdims": r, "cdims": c, "cdims_cyclic": ["fc", "bc", "t"][(h_ // 2) % 3]}
         return {"rdims": r, "cdims": c}
     if form == "rdims":
         return {"rdims": r}
